@@ -285,6 +285,23 @@ class Run:
         out = recorder if recorder is not None else io.BytesIO()
         try:
             self.iso.write_fp(out)
+        except pex.PyCdlibInvalidInput as e:
+            if 'partition offset lies beyond' in str(e) and self.model.hybrid is not None:
+                if recorder is not None:
+                    recorder.seek(0)
+                    recorder.truncate()
+                    if hasattr(recorder, 'log'):
+                        del recorder.log[:]
+                # only mastering knows the size of the image: an isohybrid partition offset beyond its end is refused
+                # there (documented exception).  The history goes on without the hybridization (counted).
+                self.iso.rm_isohybrid()
+                self.model.hybrid = None
+                self.model.classes.add('hybrid-dropped/offset-beyond-image')
+                self.refused.append((self.step_no, 'write_fp: %s' % e))
+                return self.write(recorder)
+            self.problem('write/exception/%s' % exc_signature(e), 'write-raised', 'write_fp raised %s: %s' % (type(e).__name__, e))
+            self.dead = True
+            return None
         except Exception as e:  # noqa
             self.problem('write/exception/%s' % exc_signature(e), 'write-raised', 'write_fp raised %s: %s' % (type(e).__name__, e))
             self.dead = True
